@@ -25,7 +25,13 @@ Mirrored code, branch by branch:
   must each verify when readable.
 * `signature_key_ids` (after fix 1e6a530): OPENPGP branch: per entry decode, parse, the issuer list of THAT
   signature must have exactly one element; legacy branch: RSA, then DSA, then PGP — the last readable tag
-  wins, even over an earlier one that parsed — exactly one issuer.
+  wins, even over an earlier one that parsed — exactly one issuer. Another count is reported as
+  `UnexpectedIssuerCount(n as u32)` through `try_into().unwrap()` (`issuerCountErr`: a panic from 2^32 issuers on).
+  The OPENPGP loop decodes base64 with an inline `Base64Decoder` of its own (`package.rs:297`), not `decode_sig`: the
+  model has ONE `b64dec`; the two sites are tied by the `vsig` / `sigpkts` runs of C02, which predict `verify_signature`
+  and `signature_key_ids` of the same package from the same decoding table.
+* `verifyWith` and C02's `Verify.verifySignatureS` mirror the same function: `Lemmas/Sign.lean:
+  verifyWith_eq_verifySignatureS` (same result, same error class).
 -/
 namespace RpmVerif.Sign
 open RpmVerif.Hdr RpmVerif.Gen RpmVerif.Digest
